@@ -198,6 +198,7 @@ class ClipSim:
         env = {'dask_workers': rng.choice([1, 2, 3, 4]), 'dask_order_seed': rng.randrange(1 << 20),
                # xarray's global LRU of open file handles: with a tiny cache every lazy read re-opens its file by path
                'file_cache_maxsize': rng.choice([1, 2, 128, 128])}
+        env['penv'] = seams.gen_process_env(rng)
         nw = n_writes(world)
         lts = []
         masks, results = [], []
@@ -219,7 +220,7 @@ class ClipSim:
                 if seam == 'read':
                     # the source is read while it is clipped: a lazily opened file (each variable, each connectivity table)
                     # or dask chunks; in-memory worlds never cross this seam
-                    if world['materialise'] == 'chunked' and rng.random() < 0.5:
+                    if world['materialise'] in ('chunked', 'chunked_auto') and rng.random() < 0.5:
                         return [{'seam': 'dask', 'nth': rng.choice([1, 1, 2, 3, 5]), 'kind': rng.choice(['EIO', 'EIO', 'crash'])}]
                     f = {'seam': 'read', 'nth': rng.choice([1, 1, 2, 3, 4, 6, 9]), 'kind': rng.choice(['EIO', 'EIO', 'crash'])}
                     if rng.random() < 0.3:
@@ -739,6 +740,7 @@ def _clip_lifetime(ctx, plan, li, scratch, acked_files=()):
     seams.install_ncfix_seam(ctl)
     sched = dasksched.install(ctl, env['dask_order_seed'] * 7 + li, env['dask_workers'])
     xarray.set_options(file_cache_maxsize=env.get('file_cache_maxsize', 128))
+    seams.apply_process_env(env.get('penv'), ctx, scratch)
     world = worldgen.World(plan['world'])
     lt = plan['lifetimes'][li]
     masks, results, work_of, dropped = {}, {}, {}, set()
